@@ -8,7 +8,7 @@
                   (each call is made after the previous one returned: the model ignores a call made earlier)
    clause_* i o = first step of the observation o at which the clause fails (Spec.v); None = holds throughout *)
 From Coq Require Import List Bool Arith ZArith NArith.
-From AUC Require Import C12.Model C12.Spec C12.Yields C12.Clean C12.Aon C12.Witness C12.Fail C12.Alive C12.Witness2.
+From AUC Require Import C12.Model C12.Spec C12.Yields C12.Clean C12.Aon C12.Witness C12.Fail C12.Alive C12.Witness2 C12.Residual C12.YieldsRes.
 Import ListNotations.
 
 (* All or nothing, for every schedule of the domain - every number of services, every reaction sequence, every latency:
@@ -34,6 +34,15 @@ Theorem C12_loop_yields_partial :
 Proof. exact loop_yields_partial. Qed.
 Print Assumptions C12_loop_yields_partial.
 
+(* The loop yields, residual - for EVERY schedule of the domain, with NO guard premise (known finding D19 included): a run stops yielding
+   only at a loop iteration (AIter), and only at one before which the renewal task existed and had not ended.  (Once a
+   section spins the event loop is frozen and nothing further is observable: every later snapshot is div_snap.  The other
+   clauses judge every step before the first divergent one.) *)
+Theorem C12_loop_yields_residual :
+  forall i : input, in_domain i = true -> clause_yields_res i (model_run i) = None.
+Proof. exact loop_yields_residual. Qed.
+Print Assumptions C12_loop_yields_residual.
+
 (* Clean shutdown: REFUTED (known finding D20).  Three services; async_unsubscribe_services runs while the first
    renewal is in flight: when it has returned SID 0 is still routed to service 0 (and no UNSUBSCRIBE was sent for it). *)
 Theorem C12_clean_shutdown_refuted :
@@ -52,6 +61,28 @@ Theorem C12_clean_shutdown_partial :
   forall i : input, in_domain i = true -> kf_inflight i = false -> clause_clean i (model_run i) = None.
 Proof. exact clean_shutdown_partial. Qed.
 Print Assumptions C12_clean_shutdown_partial.
+
+(* Clean shutdown, residual - for EVERY schedule of the domain, with NO guard premise (known finding D20 included): from the
+   moment an unsubscribe call has returned, every unsubscribe call returned None, the profile holds nothing, no request is
+   outstanding (the request of a cancelled renewal included), the renewal task is not pending, no further request is ever
+   sent, and every SID that is still routed is the SID x of a request (QRenew, _, Some x, sent by the renewal task) that
+   was outstanding at the step at which an unsubscribe call was made, or was first seen in the loop iteration in which that
+   call started executing (the first AIter after the call was made) - read by Spec.res_acc off the schedule and the
+   observed request log, not off the model.  This is clause 5 with exactly the SID(s) of D20 exempted from "nothing is
+   routed"; every other way of failing clause 5 fails this clause too, whatever the guard of D20 says. *)
+Theorem C12_clean_shutdown_residual :
+  forall i : input, in_domain i = true -> clause_clean_res i (model_run i) = None.
+Proof. exact clean_shutdown_residual. Qed.
+Print Assumptions C12_clean_shutdown_residual.
+
+(* Clause 5 outside the OBSERVATION-BASED guard of D20 (the one Run.report uses): if the specification's reading of the
+   schedule and the observation finds no renewal in flight at the start of any unsubscribe call (nothing is ever
+   exempted by clause 6), clean shutdown holds in full.  A consequence of the residual theorem on the specification side:
+   no field of a model run occurs in the guard. *)
+Theorem C12_clean_shutdown_partial_obs :
+  forall i : input, in_domain i = true -> kf_inflight_obs i (model_run i) = false -> clause_clean i (model_run i) = None.
+Proof. exact clean_shutdown_partial_obs. Qed.
+Print Assumptions C12_clean_shutdown_partial_obs.
 
 (* A failed renewal is reported once, for every schedule of the domain: at every step the on_event(service, []) calls made
    so far are a prefix of the services whose renewal has failed so far (a renewal SUBSCRIBE of the renewal task answered
@@ -108,3 +139,28 @@ Example C12_kept_alive_inhabited :
   o_now (last (model_run w_alive2) snap0) = 291%Z /\
   o_live (last (model_run w_alive2) snap0) = [(1%nat, Some 175%Z); (2%nat, Some 770%Z); (3%nat, Some 391%Z)].
 Proof. exact alive2_example. Qed.
+
+(* the residual clause on the D20 witness: it holds where clause 5 fails, the exempted set is exactly {SID 0}, the
+   observation-based reading of the guard agrees with the ghost flag on both witnesses ... *)
+Example C12_clean_residual_inhabited :
+  clause_clean_res w_d20 (model_run w_d20) = None /\ clause_clean w_d20 (model_run w_d20) = Some 21%nat /\
+  c_exempt (res_final cacc0 snap0 (i_sched w_d20) (model_run w_d20)) = [0%nat] /\
+  kf_inflight_obs w_d20 (model_run w_d20) = true /\ kf_inflight_obs w_clean (model_run w_clean) = false.
+Proof. exact d20_residual. Qed.
+
+(* ... and it is sharp: the same trace with a second SID left routed, with another SID left routed instead, with a
+   subscription still held, or with the unsubscribe call raising fails it at the step at which the call returns; the same
+   trace with nothing left routed (a repaired implementation) satisfies it *)
+Example C12_clean_residual_sharp :
+  clause_clean_res w_d20 (tamper_last (fun x => set_routed x [(0%nat, 0%nat); (1%nat, 1%nat)]) (model_run w_d20)) = Some 21%nat /\
+  clause_clean_res w_d20 (tamper_last (fun x => set_routed x [(1%nat, 1%nat)]) (model_run w_d20)) = Some 21%nat /\
+  clause_clean_res w_d20 (tamper_last (fun x => set_subs x [(1%nat, 120%Z)]) (model_run w_d20)) = Some 21%nat /\
+  clause_clean_res w_d20 (tamper_last (fun x => set_calls x [Some (SRet None); Some (SExc EKey)]) (model_run w_d20)) = Some 21%nat /\
+  clause_clean_res w_d20 (tamper_last (fun x => set_routed x []) (model_run w_d20)) = None.
+Proof. exact d20_residual_sharp. Qed.
+
+Example C12_yields_residual_inhabited :
+  clause_yields_res w_d19 (model_run w_d19) = None /\ clause_yields w_d19 (model_run w_d19) = Some 10%nat /\
+  clause_yields_res w_d19 (div_from 9 (model_run w_d19)) = Some 9%nat /\
+  clause_yields_res w_d19 (div_from 1 (model_run w_d19)) = Some 1%nat.
+Proof. exact d19_residual. Qed.
